@@ -44,7 +44,7 @@ def gen_message(rng, echo, faulty):
                 break
             if kind == 'undef':
                 texts.append(rng.choice([b':NOPE', b':SYST:NOPE', b':ECHO:U9? 1', b':SYSTE:A', b':X:X', b'*XYZ', b':NOPE "it\'s"', b":SYST:NOPE 'say \"hi\"'",
-                                         b':NOPE 1,"a;b",#13x;y', b":SYSTE:A 'q' , \"r's\"", b':NOPE "\'"', b":NOPE '\"','\"'"]))
+                                         b':NOPE 1,"a;b",#13x;y', b":SYSTE:A 'q' , \"r's\"", b':NOPE "\'"', b":NOPE '\"','\"'", b' :*RST', b' : *IDN?', b' :*rst 1']))
                 errs.append('-113')
                 break
             if kind == 'noslot' and rng.random() < 0.3:
